@@ -32,6 +32,7 @@ func genC14(tier string) []*Prog {
 	}
 	add("println-many", "\tfmt.Println(a, b, c, u, f, p, \"s\", \"\")\n")
 	add("println-strings", "\tfmt.Println(\"x\", \"y\", a, \"z\")\n\tfmt.Println()\n\tfmt.Println(\"\")\n")
+	add("empty-operands", "\ts := \"\"\n\tfmt.Println(\"\", a, \"\")\n\tfmt.Println(s, s, a)\n\tfmt.Println(a, s, s, p)\n\tfmt.Println(s)\n\tfmt.Println(s, s)\n\tprintln(\"\", p)\n\tprintln(s, s, 7)\n\tfmt.Print(s)\n\tfmt.Println(fmt.Sprint(s) + \"|\")\n")
 	add("builtin-println", "\tprintln(a, p, \"s\", b)\n\tprintln()\n\tfmt.Print(\"\")\n")
 	add("nest2-slices", "\tfmt.Println([][]int{{a}, {a, a}, {}})\n")
 	add("nest2-slice-of-map", "\tfmt.Println([]map[string]int{{\"k\": a}, {}})\n")
